@@ -365,7 +365,8 @@ Definition run_state (fixed : bool) (c : cfg) (ops : list op) : state := fst (ru
 Definition run_outs (fixed : bool) (c : cfg) (ops : list op) : list out := snd (run fixed c (init c) ops).
 
 (* ---------- premises of the theorems, as computable predicates ---------- *)
-Definition cfg_ok (c : cfg) : bool := (0 <? c_fsz c) && (c_maxio c <=? 127).
+(* Options.Validate: FileSize > 0, 0 < MaxIOConcurrency <= MaxParallelIO = 127 *)
+Definition cfg_ok (c : cfg) : bool := (0 <? c_fsz c) && (1 <=? c_maxio c) && (c_maxio c <=? 127).
 
 Fixpoint kvs_bytes (kvs : list (bytes * bytes)) : N :=
   match kvs with [] => 0 | (_, v) :: r => len v + kvs_bytes r end.
